@@ -1,20 +1,25 @@
 // Free-running ThreadSanitizer program of C19 (no scheduler, no hook installed):
 // T threads x N iterations of nested lock/unlock, try_lock and non-owner unlock
 // on a RecursiveSpinlock and lock/try_lock/unlock on a Spinlock, each lock
-// protecting a plain counter; concurrently, creation / lookup / destruction of
-// Identifiable objects.  The TSan report (exit code, "data race" on stderr) and
+// protecting a plain counter (both the lock() and the try_lock() path of both
+// classes); concurrently, creation / lookup / destruction of Identifiable
+// objects: a local class and the real primitiv::MemoryPool (memory_pool.cc is
+// compiled into this program), with ids checked for uniqueness and
+// get_object(id) == this while alive, and an error after destruction.  The TSan report (exit code, "data race" on stderr) and
 // the printed line are judged by props/C19.py.
 //   usage: h_spin_tsan [iterations=20000] [threads=4]
 #include <atomic>
 #include <cstdint>
 #include <cstdio>
 #include <cstdlib>
+#include <memory>
 #include <algorithm>
 #include <thread>
 #include <vector>
 #include <primitiv/core/error.h>
 #include <primitiv/core/spinlock.h>
 #include <primitiv/core/mixins/identifiable.h>
+#include <primitiv/core/memory_pool.h>
 
 namespace {
 
@@ -28,7 +33,10 @@ std::uint64_t rspin_counter = 0;
 std::atomic<std::uint64_t> expected_spin(0), expected_rspin(0), lookup_failures(0);
 std::atomic<int> start_gate(0);
 
-void worker(int me, int iters, int nthreads, std::vector<std::uint64_t> *ids) {
+void *pool_alloc(std::size_t n) { return std::malloc(n); }
+void pool_free(void *p) { std::free(p); }
+
+void worker(int me, int iters, int nthreads, std::vector<std::uint64_t> *ids, std::vector<std::uint64_t> *pool_ids) {
   start_gate.fetch_add(1);
   while (start_gate.load() < nthreads) std::this_thread::yield();
   std::uint64_t my_spin = 0, my_rspin = 0;
@@ -62,6 +70,23 @@ void worker(int me, int iters, int nthreads, std::vector<std::uint64_t> *ids) {
       try {
         if (&Obj::get_object(o->id()) != o) lookup_failures.fetch_add(1);
       } catch (const primitiv::Error &) { lookup_failures.fetch_add(1); }
+      // the real Identifiable user: MemoryPool (its deleter resolves the pool by id)
+      if (i % 16 == 0) {
+        primitiv::MemoryPool *mp = new primitiv::MemoryPool(pool_alloc, pool_free);
+        const std::uint64_t pid = mp->id();
+        pool_ids->push_back(pid);
+        try {
+          if (&primitiv::MemoryPool::get_object(pid) != mp) lookup_failures.fetch_add(1);
+          std::shared_ptr<void> block = mp->allocate(64);
+          block.reset();   // returns the block through MemoryPool::get_object(pid)
+          std::shared_ptr<void> late = mp->allocate(32);
+          delete mp;       // the pool goes first; releasing `late` must find no pool
+          mp = nullptr;
+          late.reset();
+          try { primitiv::MemoryPool::get_object(pid); lookup_failures.fetch_add(1); } catch (const primitiv::Error &) {}
+        } catch (const primitiv::Error &) { lookup_failures.fetch_add(1); }
+        delete mp;
+      }
       if (live.size() > 8) {
         const std::uint64_t dead = live.front()->id();
         delete live.front();
@@ -85,19 +110,23 @@ void worker(int me, int iters, int nthreads, std::vector<std::uint64_t> *ids) {
 int main(int argc, char **argv) {
   const int iters = argc > 1 ? std::atoi(argv[1]) : 20000;
   const int nthreads = argc > 2 ? std::atoi(argv[2]) : 4;
-  std::vector<std::vector<std::uint64_t>> ids(nthreads);
+  std::vector<std::vector<std::uint64_t>> ids(nthreads), pool_ids(nthreads);
   std::vector<std::thread> ths;
-  for (int t = 0; t < nthreads; ++t) ths.emplace_back(worker, t, iters, nthreads, &ids[t]);
+  for (int t = 0; t < nthreads; ++t) ths.emplace_back(worker, t, iters, nthreads, &ids[t], &pool_ids[t]);
   for (std::thread &t : ths) t.join();
   std::vector<std::uint64_t> all;
   for (const auto &v : ids) all.insert(all.end(), v.begin(), v.end());
   std::sort(all.begin(), all.end());
-  const bool unique = std::adjacent_find(all.begin(), all.end()) == all.end();
+  std::vector<std::uint64_t> pall;
+  for (const auto &v : pool_ids) pall.insert(pall.end(), v.begin(), v.end());
+  std::sort(pall.begin(), pall.end());
+  const bool unique = std::adjacent_find(all.begin(), all.end()) == all.end()
+      && std::adjacent_find(pall.begin(), pall.end()) == pall.end();
   const bool ok = spin_counter == expected_spin.load() && rspin_counter == expected_rspin.load()
       && unique && lookup_failures.load() == 0;
-  std::printf("%s spin=%llu/%llu rspin=%llu/%llu ids=%zu unique=%d lookup_failures=%llu\n", ok ? "ok" : "FAIL",
+  std::printf("%s spin=%llu/%llu rspin=%llu/%llu ids=%zu pools=%zu unique=%d lookup_failures=%llu\n", ok ? "ok" : "FAIL",
               (unsigned long long)spin_counter, (unsigned long long)expected_spin.load(),
               (unsigned long long)rspin_counter, (unsigned long long)expected_rspin.load(),
-              all.size(), unique ? 1 : 0, (unsigned long long)lookup_failures.load());
+              all.size(), pall.size(), unique ? 1 : 0, (unsigned long long)lookup_failures.load());
   return ok ? 0 : 1;
 }
